@@ -1197,6 +1197,9 @@ def _p_chunk(case, a, bs, n, nd, f):
 @pattern("squeeze")
 def _p_squeeze(case, a, bs, n, nd, f):
     named = names_of(case["names"], n) is not None
+    if a["dim"] is None and not named and f == "rejects-legal" and n >= 1 and all(s == 1 for s in bs) \
+            and case["pat"] in ("flat", "nest0", "nest1"):
+        return "dim=None,all-dims-1,featureless-entry"
     if a["dim"] is None and named:
         if f == "rejects-legal" and n >= 1 and all(s == 1 for s in bs):
             return "dim=None,names,all-dims-1"
@@ -1325,7 +1328,14 @@ def _p_permute(case, a, bs, n, nd, f):
     return _p_leafless_only(case, a, bs, n, nd, f)
 
 
-for _op in ("repeat", "masked_select", "transpose", "unsqueeze", "unbind"):
+@pattern("repeat")
+def _p_repeat(case, a, bs, n, nd, f):
+    if f == "rejects-legal" and n == 0 and a["reps"] == [] and case["pat"] in ("flat", "nest0", "nest1"):
+        return "rank-0,no-repeats,featureless-entry"
+    return _p_leafless_only(case, a, bs, n, nd, f)
+
+
+for _op in ("masked_select", "transpose", "unsqueeze", "unbind"):
     PATTERN_OF[_op] = _p_leafless_only
 
 
@@ -1562,10 +1572,11 @@ def impl_canon(impl):
 
 def modelled(case):
     """the part of the API Model/C02_ShapeOps transcribes"""
-    return case["op"] in MODELLED_OPS and not (case.get("out") or "").startswith("lazy")
+    return case["op"] in MODELLED_OPS and not case.get("out")
 
 
-MODELLED_OPS = set()
+MODELLED_OPS = {"permute", "transpose", "squeeze", "unsqueeze", "expand", "view", "reshape", "flatten", "unflatten", "repeat",
+                "repeat_interleave", "unbind", "split", "chunk", "gather", "stack", "cat"}
 
 
 def replay(body):
